@@ -91,7 +91,10 @@ class Case:
                 self.ok = True
             elif t[0] == "pdf" and ob.startswith("ok"):
                 self.pdf = [pnum(x) for x in ob[3:].split(" ")]
-            elif t[0] in ("idsm", "sdsm", "fds"):
+            elif t[0] in ("idsm", "sdsm", "fds", "idsmx", "sdsmx"):
+                if t[0].endswith("x"):
+                    # driver of magnitude 2^-k; results are reported at the scale of the listed values
+                    t = [t[0][:-1]] + t[2:]
                 self.runs.append((t, ob, ln))
             elif t[0] == "bal":
                 self.bals.append((t, ob, ln))
@@ -421,9 +424,28 @@ def check_C17(lines, obs):
     return None
 
 
+def driver_untouched(lines, obs):
+    """compute() reads its driver (the prescribed inflow or stock) and leaves it as given"""
+    for ln, ob in zip(lines, obs):
+        t = ln.split(" ")
+        if t[0] in ("idsm", "sdsm", "idsmx", "sdsmx") and ob.startswith("ok"):
+            given = [pnum(x) for x in (t[2:] if t[0].endswith("x") else t[1:])]
+            sec = sections(ob)
+            if "D" not in sec:
+                continue
+            got = [pnum(x) for x in sec["D"]]
+            scale = max([abs(v) for v in given] + [1])
+            if len(got) != len(given) or any(not close(a, b, scale) for a, b in zip(given, got)):
+                return fail(ln, "the prescribed driver is still what was given after compute()", [str(v) for v in given][:8], [str(v) for v in got][:8])
+    return None
+
+
 def _guard(fn):
     def run(lines, obs):
         try:
+            r = driver_untouched(lines, obs)
+            if r:
+                return r
             return fn(lines, obs)
         except ValueError as e:
             if "nan" in str(e) or "inf" in str(e):
@@ -434,5 +456,12 @@ def _guard(fn):
     return run
 
 
+def check_C16_with_inverse(lines, obs):
+    """C16 proper (impulse responses, superposition of the inflow-driven model), then the
+    stock-driven model as the inverse of that linear map: a stock-driven result that does not
+    reproduce its driver through the linear inflow-driven model is not linear in the driver either"""
+    return check_C16(lines, obs) or check_C10(lines, obs)
+
+
 CHECKS = {k: _guard(v) for k, v in {"C03": check_C03, "C08": check_C08, "C09": check_C09,
-                                    "C10": check_C10, "C16": check_C16, "C17": check_C17}.items()}
+                                    "C10": check_C10, "C16": check_C16_with_inverse, "C17": check_C17}.items()}
